@@ -18,6 +18,10 @@ pub const CTX_CONSUMER: u8 = 4;
 pub static mut CTX: u8 = CTX_CLIENT;
 /// a schedule-placed unit is running nested inside a suspended host
 pub static mut IN_UNIT: bool = false;
+/// the running unit is what the suspended host is waiting for (e.g. the reducer loop run
+/// from inside the pool join): a lock it cannot get is then a genuine deadlock, not a
+/// disabled placement
+pub static mut UNIT_IS_AWAITED: bool = false;
 /// placement of the unit: the `occ`-th scheduling point of kind/obj after arming
 pub static mut PLACE: (u8, usize, u8) = (0, 0, 0);
 pub static mut PLACE_SEEN: u8 = 0;
@@ -149,7 +153,7 @@ pub fn mutex_lock<T: ?Sized>(m: &std::sync::Mutex<T>) -> std::sync::LockResult<s
         Ok(g) => Ok(g),
         Err(std::sync::TryLockError::Poisoned(p)) => Err(p),
         Err(std::sync::TryLockError::WouldBlock) => {
-            if unsafe { IN_UNIT } {
+            if unsafe { IN_UNIT && !UNIT_IS_AWAITED } {
                 // a unit placed by the schedule at a point where the suspended host holds the
                 // lock it needs: the unit is simply not enabled here (DESIGN.md §4.4)
                 kani::assume(false);
@@ -327,6 +331,18 @@ pub mod thread {
         }
     }
 
+    pub struct Thread;
+    impl Thread {
+        pub fn name(&self) -> Option<&str> {
+            None
+        }
+    }
+    pub fn current() -> Thread {
+        Thread
+    }
+    pub fn panicking() -> bool {
+        false
+    }
     pub fn sleep(_d: std::time::Duration) {}
     pub fn yield_now() {}
 }
@@ -339,6 +355,7 @@ pub fn reset_all() {
         CTX = CTX_CLIENT;
         CLOCK = 0;
         IN_UNIT = false;
+        UNIT_IS_AWAITED = false;
         PLACE_ARMED = false;
         PLACE_FIRED = false;
         PLACE_SEEN = 0;
